@@ -117,6 +117,8 @@ fn call_native(x: XfnPtr, xs: &mut State) -> (r: Xresult)
         final(xs).code@.len() == old(xs).code@.len(),
         final(xs).insn_meter == old(xs).insn_meter,
         final(xs).last_error == old(xs).last_error,
+        final(xs).ctx == old(xs).ctx, final(xs).nested@ == old(xs).nested@, final(xs).flow_stack@ == old(xs).flow_stack@,
+        final(xs).debug_map@.len() == old(xs).debug_map@.len(),
         exists|n: nat| #[trigger] rev_w(old(xs), final(xs), n) && rev_ext(old(xs), final(xs), n),
 { unimplemented!() }
 
